@@ -87,14 +87,14 @@ deriving Repr, DecidableEq, Inhabited
 inductive TPc | users | lock | addPermits | detach
 deriving Repr, DecidableEq, Inhabited
 
-inductive ZPc | check | lock | shrink | grow | closeSem
+inductive ZPc | lock | shrink | grow
 deriving Repr, DecidableEq, Inhabited
 
 inductive Op
   | get (t : Timeouts) (pc : GPc)
   | ret (pc : RPc) (o : Obj)
   | take (pc : TPc) (o : Obj) (add : Bool)
-  /-- `resize n`; `close()` is `resize 0` followed by `closeSem` -/
+  /-- `resize n` (`isClose = false`) or `close()` (`isClose = true`, `n = 0`) -/
   | resize (n : Nat) (isClose : Bool) (pc : ZPc) (old : Nat)
   | retain (keep : List Bool)
   | status
@@ -401,30 +401,39 @@ def stepTake (s : State) (i : Nat) (pc : TPc) (o : Obj) (add : Bool) : Option St
 
 /-! ### `resize` / `close` -/
 
-/-- the function returns from `resize`; `close` continues with `Semaphore::close` -/
-def returnResize (s : State) (i : Nat) (n : Nat) (isClose : Bool) (old : Nat) : State :=
-  if isClose then s.setOp i (.resize n true .closeSem old)
-  else (s.setOp i .done).emit [.resized i n]
+/-- `resize` releases the slots mutex and returns -/
+def finishResize (s : State) (i : Nat) (n : Nat) : State :=
+  ({ s with lock := none }.setOp i .done).emit [.resized i n]
 
-/-- the same, releasing the slots mutex first -/
-def finishResize (s : State) (i : Nat) (n : Nat) (isClose : Bool) (old : Nat) : State :=
-  returnResize { s with lock := none } i n isClose old
+/-- `Manager::detach` + drop of every object drained by `close()`, front to back -/
+def drainEvs (i : Nat) : List Obj → List Ev
+  | [] => []
+  | o :: rest => .detach i o.id :: .destroy i o.id :: drainEvs i rest
 
 def stepResize (s : State) (i : Nat) (n : Nat) (isClose : Bool) (pc : ZPc) (old : Nat) :
     Option State :=
   match pc with
-  | .check =>
-    if s.sem.closed then some (returnResize s i n isClose old)
-    else some (s.setOp i (.resize n isClose .lock old))
   | .lock =>
     match s.lock with
     | some _ => none
     | none =>
-      let old := s.maxSize
-      let s := { s with maxSize := n, lock := some i, debt := s.debt + (old - n) }
-      if n < old then some (s.setOp i (.resize n isClose .shrink old))
-      else if n > old then some (s.setOp i (.resize n isClose .grow old))
-      else some (finishResize s i n isClose old)
+      if isClose then
+        -- `close()`: one critical section: `Semaphore::close()`, `max_size = 0`, every idle
+        -- object released and detached
+        some ((({ s with sem := s.sem.close, maxSize := 0, idle := [],
+                         size := s.size - s.idle.length,
+                         fault := decFault s.fault s.size s.idle.length,
+                         debt := s.debt + s.maxSize }).setOp i .done).emit
+          (drainEvs i s.idle ++ [Ev.closedEv i]))
+      else if s.sem.closed then
+        -- `resize` on a closed pool (checked under the mutex): nothing happens
+        some ((s.setOp i .done).emit [.resized i n])
+      else
+        let old := s.maxSize
+        let s := { s with maxSize := n, lock := some i, debt := s.debt + (old - n) }
+        if n < old then some (s.setOp i (.resize n isClose .shrink old))
+        else if n > old then some (s.setOp i (.resize n isClose .grow old))
+        else some (finishResize s i n)
   | .shrink =>
     if s.size > s.maxSize then
       match s.sem.tryAcquire with
@@ -435,12 +444,10 @@ def stepResize (s : State) (i : Nat) (n : Nat) (isClose : Bool) (pc : ZPc) (old 
           some ({ s with sem := sem, idle := rest, size := s.size - 1, debt := s.debt - 1,
                          fault := decFault s.fault s.size 1 }.emit [.detach i o.id, .destroy i o.id])
         | [] => some { s with sem := sem, debt := s.debt - 1 }
-      | (_, _) => some (finishResize s i n isClose old)
-    else some (finishResize s i n isClose old)
+      | (_, _) => some (finishResize s i n)
+    else some (finishResize s i n)
   | .grow =>
-    some (finishResize { s with sem := s.sem.addPermits (n - old) } i n isClose old)
-  | .closeSem =>
-    some (({ s with sem := s.sem.close }.setOp i .done).emit [.closedEv i])
+    some (finishResize { s with sem := s.sem.addPermits (n - old) } i n)
 
 /-! ### `retain` -/
 
@@ -500,8 +507,8 @@ def startOp (s : State) (sp : Spec) : Option State :=
     | some o =>
       some { s with ops := s.ops ++ [.take .users o false], out := s.out.erase o }
     | none => none
-  | .resize n => some { s with ops := s.ops ++ [.resize n false .check 0] }
-  | .close => some { s with ops := s.ops ++ [.resize 0 true .check 0] }
+  | .resize n => some { s with ops := s.ops ++ [.resize n false .lock 0] }
+  | .close => some { s with ops := s.ops ++ [.resize 0 true .lock 0] }
   | .retain keep => some { s with ops := s.ops ++ [.retain keep] }
   | .status => some { s with ops := s.ops ++ [.status] }
 
@@ -608,11 +615,10 @@ def Op.label (c : Cfg) : Op → String
   | .take .lock .. => "take.lock"
   | .take .addPermits .. => "take.add_permits"
   | .take .detach .. => "take.detach"
-  | .resize _ _ .check _ => "resize.check"
-  | .resize _ _ .lock _ => "resize.lock"
+  | .resize _ false .lock _ => "resize.lock"
+  | .resize _ true .lock _ => "close.lock"
   | .resize _ _ .shrink _ => "resize.shrink"
   | .resize _ _ .grow _ => "resize.grow"
-  | .resize _ _ .closeSem _ => "close.sem"
   | .retain _ => "retain"
   | .status => "status"
   | .done => "done"
